@@ -1,10 +1,14 @@
-"""Bounded stand-in for C06 (see bounded/roundtrip.py)."""
+"""Bounded stand-in for C06: fixed point of rebuilt text (roundtrip programs) and of the text emitted by
+successful edits (bounded/edits.py)."""
+from bounded import edits as E
 from bounded.roundtrip import replay_roundtrip, run_roundtrip
 
 
 def run(tier, seed):
-    return run_roundtrip("C06", tier, seed)
+    return E.merge(run_roundtrip("C06", tier, seed), E.run_edits("C06", tier, seed))
 
 
 def replay(v):
+    if "op" in v["inputs"]:
+        return E.replay_edit("C06", v)
     return replay_roundtrip("C06", v)
